@@ -41,7 +41,7 @@ TraceNext ==
   /\ l' = l + 1
   /\ LET e == Trace[l] IN
      IF e.ev = "New" THEN Reset
-     ELSE IF e.ev = "step" THEN Next /\ last' = LabelOf(e) /\ Agrees(e)
+     ELSE IF e.ev = "step" THEN Next /\ last' = LabelOf(e) /\ (IF e.x = "dead" THEN TRUE ELSE Agrees(e))   \* "dead": the system has stopped, nothing to project
      ELSE UNCHANGED vars
 
 TraceSpec == TraceInit /\ [][TraceNext]_tvars
